@@ -191,7 +191,7 @@ PROPS = {
         ],
     },
     "C16": {
-        "lean_modules": ["TableauVerif.Props.C16"],
+        "lean_modules": ["TableauVerif.Props.C16", "TableauVerif.Props.C16Pools"],
         "oracles": ["c16.hist"],
         "streams": [
             ("e2e.C16.history", 140, 1200, 8),
